@@ -18,8 +18,8 @@ def main():
         if sel in c.name:
             for gi, _ in enumerate(c.configs()):
                 tasks.append((ci, gi, tier, 0))
-    with mp.Pool(min(16, max(1, len(tasks))), maxtasksperchild=1) as pool:
-        for r in pool.imap_unordered(cli._worker, tasks):
+    if True:
+        for r in cli.run_tasks(tasks, min(16, max(1, len(tasks))), cli._deadline(tier)):
             nob = len(r["obligations"])
             ok = sum(1 for o in r["obligations"] if o.get("status") == "proved")
             print("%-60s %-28s tier=%s obl=%d/%d paths=%s cover=%s %.1fs" % (
